@@ -1,5 +1,5 @@
 import sys, json, tempfile, collections, time
-sys.path.insert(0,'/verif'); sys.path.insert(0,'/repo/src')
+sys.path.insert(0,'/verif'); sys.path.insert(0, __import__('os').environ.get('VERIF_REPO_SRC', '/repo/src'))
 from harness import tlc, gen, checks
 from harness.driver import run_program
 prof=sys.argv[1]; n=int(sys.argv[2]); seed0=int(sys.argv[3]) if len(sys.argv)>3 else 0
